@@ -190,7 +190,7 @@ func (e *Engine) intrinsic(st *State, name string, args []Value, c *ssa.CallComm
 		n := e.concreteInt(st, args[1])
 		v := e.nondetVar(st, label, "u64", 64)
 		if !v.IsConst() {
-			if !e.decide(st, ts.Cmp(OpBvUlt, v, ts.BVu(uint64(n), 64))) {
+			if !e.assumeHolds(st, ts.Cmp(OpBvUlt, v, ts.BVu(uint64(n), 64))) {
 				panic(sigDead{"assume-false"})
 			}
 		}
@@ -202,7 +202,7 @@ func (e *Engine) intrinsic(st *State, name string, args []Value, c *ssa.CallComm
 		mx := e.concreteInt(st, args[1])
 		lv := e.nondetVar(st, label+".len", "u64", 64)
 		if !lv.IsConst() {
-			if !e.decide(st, ts.Cmp(OpBvUle, lv, ts.BVu(uint64(mx), 64))) {
+			if !e.assumeHolds(st, ts.Cmp(OpBvUle, lv, ts.BVu(uint64(mx), 64))) {
 				panic(sigDead{"assume-false"})
 			}
 		}
@@ -240,7 +240,7 @@ func (e *Engine) intrinsic(st *State, name string, args []Value, c *ssa.CallComm
 		return nil
 	case "Assume":
 		c := args[0].(*Term)
-		if !e.decide(st, c) {
+		if !e.assumeHolds(st, c) {
 			panic(sigDead{"assume-false"})
 		}
 		return nil
